@@ -301,7 +301,19 @@ class Ctx:
         if rule:
             cov["rule"] = rule
         cov.setdefault("samples", self.samples[:5] or ["(none recorded)"])
-        cov["tlc_runs"] = self.tlc_runs
+        runs = self.tlc_runs
+        if len(runs) > 40:      # many validation pieces: one line per (module, cfg) instead of one per TLC process
+            agg = {}
+            for r in runs:
+                a = agg.setdefault((r.get("module"), r.get("cfg")), dict(module=r.get("module"), cfg=r.get("cfg"), processes=0,
+                                                                         generated=0, distinct=0, wall=0.0, rc=0))
+                a["processes"] += 1
+                a["generated"] += r.get("generated") or 0
+                a["distinct"] += r.get("distinct") or 0
+                a["wall"] = round(a["wall"] + (r.get("wall") or 0), 2)
+                a["rc"] = a["rc"] or (r.get("rc") or 0)
+            runs = list(agg.values())
+        cov["tlc_runs"] = runs
         cov["known_findings_seen"] = sorted(kf_lines.keys())
         if extra:
             cov.update(extra)
